@@ -148,6 +148,26 @@ theorem admInputs_of_code (e : Env K) (asm : C08.Assembled e) (ha : e.alpha ≠ 
     rw [show (if j = l then (1 : K) else 0) = if l = j then 1 else 0 by simp only [eq_comm], ← this]
     exact Finset.sum_congr rfl fun k _ => by rw [hγu k l, asm.hsym j k]; ring
 
+/-- the hypothesis `hdet` of `AdmInputs` also holds when the cached `gdet` came from the OTHER alternative of the
+code (`gdet = −α² det γ`, no `gdown4` key supplied): both alternatives agree on an assembled metric (C08). -/
+theorem gdet_dflt_is_gdown4 (e : Env K) (asm : C08.Assembled e) (hgd : e.gammadet = gammadet e)
+    (hdet : e.gdet = gdet__dflt e) : e.gdet = gdet__gdown4 e := by
+  rw [hdet, C08.gdet_coherent e asm hgd]
+
+/-- the abstract hypotheses of T9a–d are consequences of `AdmInputs` (shift key present). -/
+theorem normal_frame_hypotheses_of_inputs (e : Env K) (hI : AdmInputs e)
+    (hE : Symm e.eweyl_n_down3) (hB : Symm e.bweyl_n_down3)
+    (hEt : traceG3 e.gammaup3 e.eweyl_n_down3 = 0) :
+    UnitNormal e.gdown4 e.gup4 e.ndown4 e.nup4
+    ∧ Spatial (s_to_st__betaup3 e e.eweyl_n_down3) e.nup4
+    ∧ traceG4 e.gup4 (s_to_st__betaup3 e e.eweyl_n_down3) = 0
+    ∧ Spatial (s_to_st__betaup3 e e.bweyl_n_down3) e.nup4
+    ∧ VolumeForm e.gdown4 e.gup4 (levicivita_down4 e) := by
+  have hN := unitNormal_of_assembled e hI.asm hI.ha hI.hinv hI.hnu hI.hnd
+  refine ⟨hN, s_to_st_shift_spatial e _ hE hI.hnu, ?_, s_to_st_shift_spatial e _ hB hI.hnu,
+    lc_down4_volumeForm e hN.hg hI.hinv hI.hdet hI.hsq⟩
+  rw [s_to_st_shift_trace e hI.asm hI.hinv hI.hγu hI.hγinv _ hE, hEt]
+
 /-- **from the inputs, shift key present**: the generated second construction is trace-free on every index
 pair, has the Riemann symmetries, and its contractions with the normal give back `s_to_st(E)`, `s_to_st(B)`,
 for symmetric `E`, `B` with `γ^{ij}E_ij = 0` (no trace condition on `B`). -/
@@ -266,5 +286,53 @@ example : AdmInputs exEnvF ∧ Symm exEnvF.eweyl_n_down3 ∧ Symm exEnvF.bweyl_n
   · cases3 <;> cases3 <;> (simp only [exEnvF, core_unfold])
   · simp only [traceG3, exEnvF, core_unfold, Fin.sum_univ_three]; norm_num
   · simp only [traceG3, exEnvF, core_unfold, Fin.sum_univ_three]; norm_num
+
+
+/-- the cache state of T9d: `st_Weyl_down4` produced by the second construction, observer = normal. -/
+def exEnvFC : Env ℚ :=
+  { exEnvF with st_Weyl_down4 := st_Weyl_down4__betaup3 exEnvF, uup4 := exEnvF.nup4 }
+
+example : exEnvFC.st_Weyl_down4 = st_Weyl_down4__betaup3 exEnvFC ∧ exEnvFC.uup4 = exEnvFC.nup4 := by
+  refine ⟨?_, rfl⟩
+  show st_Weyl_down4__betaup3 exEnvF = st_Weyl_down4__betaup3 exEnvFC
+  funext a b c d
+  rw [weyl_alt2_spec exEnvF, weyl_alt2_spec exEnvFC]
+  rfl
+
+/-- the same data with zero shift (hypothesis `β = 0` of the variants without a shift key). -/
+def exEnvF0 : Env ℚ :=
+  { (Env.zero : Env ℚ) with
+    alpha := 2, sqrtF := fun x => x / 2,
+    gammadown3 := vec3 (vec3 1 0 0) (vec3 0 1 0) (vec3 0 0 1),
+    gammaup3 := vec3 (vec3 1 0 0) (vec3 0 1 0) (vec3 0 0 1),
+    gtt := -4, gdet := -4,
+    gdown4 := vec4 (vec4 (-4) 0 0 0) (vec4 0 1 0 0) (vec4 0 0 1 0) (vec4 0 0 0 1),
+    gup4 := vec4 (vec4 (-1 / 4) 0 0 0) (vec4 0 1 0 0) (vec4 0 0 1 0) (vec4 0 0 0 1),
+    nup4 := vec4 (1 / 2) 0 0 0, ndown4 := vec4 (-2) 0 0 0,
+    eweyl_n_down3 := vec3 (vec3 1 2 0) (vec3 2 (-1) 3) (vec3 0 3 0),
+    bweyl_n_down3 := vec3 (vec3 3 1 1) (vec3 1 2 0) (vec3 1 0 (-5)) }
+
+example : AdmInputs exEnvF0 ∧ (∀ i, exEnvF0.betaup3 i = 0) ∧ Symm exEnvF0.eweyl_n_down3
+    ∧ Symm exEnvF0.bweyl_n_down3 ∧ traceG3 exEnvF0.gammaup3 exEnvF0.eweyl_n_down3 = 0
+    ∧ traceG3 exEnvF0.gammaup3 exEnvF0.bweyl_n_down3 = 0 := by
+  refine ⟨⟨⟨?_, ?_, ?_, ?_, ?_⟩, ?_, ?_, ?_, ?_, ?_, ?_, ?_, ?_⟩, ?_, ?_, ?_, ?_, ?_⟩
+  · funext i; revert i; cases3 <;> (simp only [exEnvF0, Env.zero, core_unfold]; try norm_num)
+  · simp only [exEnvF0, Env.zero, core_unfold]; norm_num
+  · simp only [exEnvF0, Env.zero, core_unfold]; norm_num
+  · funext i j; revert i j; cases4 <;> cases4 <;> (simp only [exEnvF0, Env.zero, core_unfold])
+  · cases3 <;> cases3 <;> (simp only [exEnvF0, core_unfold])
+  · simp only [exEnvF0]; norm_num
+  · cases4 <;> cases4 <;> (simp only [exEnvF0, core_unfold, Fin.sum_univ_four]; try norm_num) <;> try decide
+  · funext i; revert i; cases4 <;> (simp only [exEnvF0, Env.zero, core_unfold]; try norm_num)
+  · funext i; revert i; cases4 <;> (simp only [exEnvF0, core_unfold]; try norm_num)
+  · cases3 <;> cases3 <;> (simp only [exEnvF0, core_unfold])
+  · cases3 <;> cases3 <;> (simp only [exEnvF0, core_unfold, Fin.sum_univ_three]; try norm_num) <;> try decide
+  · simp only [exEnvF0, core_unfold]; norm_num
+  · simp only [exEnvF0]; norm_num
+  · cases3 <;> (simp only [exEnvF0, Env.zero, core_unfold])
+  · cases3 <;> cases3 <;> (simp only [exEnvF0, core_unfold])
+  · cases3 <;> cases3 <;> (simp only [exEnvF0, core_unfold])
+  · simp only [traceG3, exEnvF0, core_unfold, Fin.sum_univ_three]; norm_num
+  · simp only [traceG3, exEnvF0, core_unfold, Fin.sum_univ_three]; norm_num
 
 end AurelVerif.C10
